@@ -60,12 +60,16 @@ def oracle(req, impl, build):
                     return "next_f64 outside [1,2)"
     # (which bits of the raw word become the mantissa is not fixed by this property - C01 fixes it for the published generators; the
     #  weights are judged by the preimage counts and the twin runs in `extra`)
-    if req.startswith("word"):
-        for tok in impl.split():
+    if req.startswith("word") or req.startswith("chacha"):
+        ops = req.split("ops=")[1].split()[0].split(",") if "ops=" in req else []
+        toks = impl.split()
+        for i, tok in enumerate(toks):
             if tok.startswith("f:"):
                 v = int(tok[2:])
-                if not (0x3F800000 <= v < 0x40000000 or 0x3FF0000000000000 <= v < 0x4000000000000000):
-                    return "unit float outside [1,2)"
+                op = ops[i] if i < len(ops) and len(toks) >= len(ops) else None
+                ok32, ok64 = 0x3F800000 <= v < 0x40000000, 0x3FF0000000000000 <= v < 0x4000000000000000
+                if (op == "f32" and not ok32) or (op == "f64" and not ok64) or not (ok32 or ok64):
+                    return "op %d (%s) returned bits 0x%x: a unit float outside [1,2) (NaN, negative or another binade)" % (i, op or "float draw", v)
     return None
 
 
